@@ -143,6 +143,13 @@ Dec(w, known, D) ==
       [] w.fam = "osSyscallError" -> V(w.fam, w.msg, <<>>, kidsV, <<>>)
       [] OTHER -> OpaqueWrap
 
+\* the projection of a wire message the harness records (conformance of Enc)
+RECURSIVE WAbs(_)
+RECURSIVE WAbsSeq(_)
+WAbsSeq(ws) == IF ws = <<>> THEN <<>> ELSE <<WAbs(ws[1])>> \o WAbsSeq(Tail(ws))
+WAbs(w) == [k |-> w.k, msg |-> IF w.fam = "barrierErr" THEN <<"?">> ELSE w.msg, fam |-> w.fam, tn |-> w.tn,
+            ext |-> w.ext, full |-> w.full, pay |-> PayT(w), kids |-> WAbsSeq(w.kids)]
+
 \* one hop: encode at the sender (registry reg), decode at a receiver that
 \* knows `known`
 Hop(v, known, reg, D) == Dec(Enc(v, reg, D), known, D)
